@@ -3,13 +3,14 @@ from . import n2k, catalog, traffic
 
 
 def history(rng, n_items=None, sources=None, claims=True, unknown=True, incomplete=True, pad="rand",
-            all_defs=False, multi_def_bias=False):
+            all_defs=False, multi_def_bias=False, repeat_seq=False):
     """Returns a list of events {"f": [pgn, src, dst, prio, datahex], "k": kind, "m": message#, "i": frame#, "n": frames,
     "whole": payload hex (on the last frame of a complete message)} with fast-packet streams interleaved."""
     catalog.load()
     n_items = n_items or rng.choice([3, 6, 12, 25, 40])
     sources = sources or rng.sample(range(0, 253), rng.randrange(1, 5))
     seqs = {}
+    complete_last = {}
     lanes = []
     mno = 0
     for _ in range(n_items):
@@ -40,13 +41,23 @@ def history(rng, n_items=None, sources=None, claims=True, unknown=True, incomple
                 else:
                     payload = traffic.rbytes(rng, rng.choice([1, 3, 5, 6, 7, 8, 13, 14, 20, 27, 43, 47, 90, 223]))
             dst = catalog.dst_for(pgn, rng)
+            same = False
+            if repeat_seq and seqs and rng.random() < 0.5:
+                # revisit a stream that already carried a message; if that message was sent completely, sometimes
+                # with the very same counter (a talker that does not advance it)
+                pgn, src, dst = rng.choice(sorted(seqs))
+                payload = traffic.rbytes(rng, rng.choice([3, 7, 8, 14, 20, 27]))
+                same = complete_last.get((pgn, src, dst), False) and rng.random() < 0.5
             seq = seqs.get((pgn, src, dst), rng.randrange(8))
+            if same:
+                seq = (seq - 1) % 8
             seqs[(pgn, src, dst)] = (seq + 1) % 8
             p = pad if pad != "rand" else rng.choice([None, 0xFF, 0xFF, 0x00])
             frames = n2k.fast_frames(payload, seq, p)
             cut = len(frames)
             if incomplete and len(frames) > 1 and rng.random() < 0.12:
                 cut = rng.randrange(1, len(frames))
+            complete_last[(pgn, src, dst)] = cut == len(frames)
             lane = []
             for i, f in enumerate(frames[:cut]):
                 e = {"f": [pgn, src, dst, prio, f.hex()], "k": "fast", "m": mno, "i": i, "n": len(frames)}
